@@ -61,6 +61,9 @@ pub struct Model {
     /// (vAMM, trader) -> height of the trader's last successful trade that left a position record (C16 reference;
     /// kept from the history, not read from the stored position)
     pub touched: BTreeMap<(usize, String), u64>,
+    /// per vAMM: the insurance fund it was *given* (instantiate message / successful UpdateConfig), kept from the
+    /// history rather than read back from the vAMM's config
+    pub vamm_if: Vec<Option<String>>,
 }
 
 /// Evidence and violation collector for one run.
@@ -264,6 +267,7 @@ impl Runner {
             model.q_at_size.push(m);
             model.feed.push(vec![(cfg.start_time, cfg.vamms[i].oracle_price)]);
             model.liq_block.push(0);
+            model.vamm_if.push(if cfg.kind == WorldKind::Standard && cfg.vamms[i].init_if { Some(w.addrs.insurance_fund.clone()) } else if cfg.kind == WorldKind::VammDirect { Some(crate::world::IF_EOA.to_string()) } else { None });
             model.trades_in_block.push((0, 0));
             model.settlements.push(0);
         }
@@ -452,6 +456,12 @@ impl Runner {
                 }
                 Op::PayFunding { vamm } | Op::SettleFunding { vamm } => {
                     self.model.settlements[*vamm] += 1;
+                }
+                Op::VammConfig { vamm, insurance_fund: Some(x), .. } => {
+                    let a = self.w.resolve(x);
+                    if let Some(old) = self.model.vamm_if[*vamm].replace(a) {
+                        self.model.former.insert((format!("vamm_if{}", vamm), old));
+                    }
                 }
                 _ => {}
             }
